@@ -43,6 +43,7 @@ type End struct {
 	// discipline monitor (C10)
 	sendBusy, recvBusy, closeBusy int
 	NSend, NRecv, NClose          int
+	NSendFault                    int
 	Overlaps                      []string
 
 	// fault script
@@ -51,6 +52,7 @@ type End struct {
 	FaultRate float64     // per-operation probability of a random fault (drawn from Sched)
 	FaultKinds []int
 	Failed    bool // a fault has fired on this end
+	eofStuck  bool // the inbound stream has reported its end: every further Recv is io.EOF
 
 	OnSend func(e *End, rec []byte) // observation hook, called at Send entry
 }
@@ -110,14 +112,17 @@ func (e *End) Send(b []byte) error {
 	case e.closed:
 		err = fmt.Errorf("send on closed channel end %s", e.Name)
 	case f == fSendErrLost:
+		e.NSendFault++
 		e.Failed = true
 		e.r.Fault(faultNames[f])
 		err = ErrInjected
 	default:
-		if !e.peer.closed {
+		if !e.peer.closed || !e.peer.CloseUnblocks {
+			// a stdin/Direct-like end keeps receiving after its own Close
 			e.peer.in = append(e.peer.in, rec)
 		}
 		if f == fSendErrAfter {
+			e.NSendFault++
 			e.Failed = true
 			e.r.Fault(faultNames[f])
 			err = ErrInjected
@@ -148,7 +153,10 @@ func (e *End) Recv() ([]byte, error) {
 	f := e.faultFor(false)
 	var data []byte
 	var err error
-	if f == fRecvErr {
+	if e.eofStuck {
+		rt.Yield("sim:recv:eof")
+		err = io.EOF
+	} else if f == fRecvErr {
 		rt.Yield("sim:recv:fault")
 		e.Failed = true
 		e.r.Fault(faultNames[f])
@@ -165,6 +173,7 @@ func (e *End) Recv() ([]byte, error) {
 			e.in = e.in[1:]
 			if f == fRecvDataEOF {
 				e.Failed = true
+				e.eofStuck = true
 				e.r.Fault(faultNames[f])
 				err = io.EOF
 			} else if f == fRecvDataErr {
